@@ -301,7 +301,7 @@ def _run_chunk(args):
     while i < len(cases):
         data = ("\n".join(cases[i:]) + "\n").encode()
         rc, out, err = run([exe] + argv, input=data, env=env,
-                           timeout=max(60, per_case_timeout * (len(cases) - i)))
+                           timeout=max(60 if crashes == 0 else 20, per_case_timeout * (len(cases) - i)))
         lines = out.split("\n")
         if lines and lines[-1] == "":
             lines.pop()
@@ -317,7 +317,7 @@ def _run_chunk(args):
             break
         obs.extend(lines[:k])
         obs.append("CRASH " + crash_summary(rc, err))
-        crashes += 1
+        crashes += 10 if rc == 124 else 1     # a hang costs a whole time-out: spend the budget faster
         i = len(obs)
         if crashes > 50:
             obs.extend(["ERR too-many-crashes"] * (len(cases) - len(obs)))
